@@ -175,7 +175,7 @@ def gp_pre(c, v):
             'planet': c.And(c.Lt(0, s.planet._mass), c.Lt(0, s.planet._radius)), 'n': c.Len(s.pressure_profile) >= 0}
 
 
-def guillot_T4(c, s, l):
+def guillot_T4(c, s, l, xi_values=None):
     """Guillot (2010) eq. 49 in the parametrisation of Line et al. (2012) eq. 19, transcribed from the papers:
     T^4 = 3 Tint^4/4 (2/3 + tau) + 3 Tirr^4/4 (1-alpha) xi(gamma1) + 3 Tirr^4/4 alpha xi(gamma2),
     xi(gamma) = 2/3 + 2/(3 gamma) [1 + (gamma tau/2 - 1) exp(-gamma tau)] + 2 gamma/3 (1 - tau^2/2) E2(gamma tau),
@@ -189,7 +189,13 @@ def guillot_T4(c, s, l):
             + 2.0 * gm / 3.0 * (1.0 - tau * tau / 2.0) * c.expn(2, gm * tau)
     Ti4 = s.T_int * s.T_int * s.T_int * s.T_int
     Tr4 = s.T_irr * s.T_irr * s.T_irr * s.T_irr
-    return 3.0 * Ti4 / 4.0 * (2.0 / 3.0 + tau) + 3.0 * Tr4 / 4.0 * (1.0 - s.alpha) * xi(g1) + 3.0 * Tr4 / 4.0 * s.alpha * xi(g2)
+    x1, x2 = (xi(g1), xi(g2)) if xi_values is None else xi_values          # (lemmas name the two xi values by constants)
+    return 3.0 * Ti4 / 4.0 * (2.0 / 3.0 + tau) + 3.0 * Tr4 / 4.0 * (1.0 - s.alpha) * x1 + 3.0 * Tr4 / 4.0 * s.alpha * x2
+
+
+def guillot_xi(c, gm, tau):
+    return 2.0 / 3.0 + 2.0 / (3.0 * gm) * (1.0 + (gm * tau / 2.0 - 1.0) * c.exp(-1.0 * gm * tau)) \
+        + 2.0 * gm / 3.0 * (1.0 - tau * tau / 2.0) * c.expn(2, gm * tau)
 
 
 def _gp_native(c, p):
@@ -758,3 +764,46 @@ TPP = Unit('C12', TP + 'temparray:TemperatureArray.profile', _tpp_params, post=_
                'at pairwise distinct positive pressures in ANY order, reversed or not, then the real profile on any positive layer pressures: one '
                'value per layer, inside the range of the control temperatures (scipy interp1d by its order-free assumed consequence: a fill '
                'value or a value between two of the given temperatures)')
+
+
+# ------------------------------------------------------------------ lemma: the Guillot closed form is positive inside its documented bounds
+def _guillot_positive(c):
+    """T^4 of the closed form (guillot_T4, the very expression the unit Guillot2010.profile is proved equal to) is positive for
+    positive opacities, pressure and gravity, 0 <= alpha <= 1 and temperatures >= 0 that are not both zero.  Uses three facts about
+    the transcendental functions at the two arguments x_i = gamma_i tau >= 0 (hypotheses of the lemma, i.e. ASSUMED mathematics):
+    exp(x) >= 1 + x + x^2/2 (Taylor, positive remainder), stated as exp(-x) (1 + x + x^2/2) <= 1;  0 <= E2(x) <= exp(-x)
+    (E2(x) = int_1^inf exp(-x t) / t^2 dt <= exp(-x) int_1^inf dt / t^2).  Then each xi(gamma) >= 2/3:
+    xi - 2/3 >= 2/(3 gamma) [1 - exp(-x)(1 - x/2 + x^2/2)] >= 2/(3 gamma) [1 - exp(-x)(1 + x + x^2/2)] >= 0."""
+    class _S:
+        pass
+    s, pl = _S(), _S()
+    s.T_irr, s.T_int, s.kappa_ir, s.kappa_v1, s.kappa_v2, s.alpha = z3.Reals('Tirr Tint kir kv1 kv2 alpha')
+    P, pl._mass, pl._radius = z3.Reals('P M R')
+    s.pressure_profile, s.planet = [P], pl
+    G = c.constant('G')
+    grav = (G * pl._mass) / (pl._radius * pl._radius)
+    tau = s.kappa_ir * P / grav
+    base = [s.kappa_ir > 0, s.kappa_v1 > 0, s.kappa_v2 > 0, P > 0, pl._mass > 0, pl._radius > 0, G > 0, s.alpha >= 0, s.alpha <= 1,
+            s.T_irr >= 0, s.T_int >= 0, s.T_irr + s.T_int > 0]
+    out = []
+    # step 1 (one xi at a time, in its own variables): xi(gamma, tau) >= 2/3
+    gm, t = z3.Reals('gm t')
+    E, E2 = c.exp(-1.0 * gm * t), c.expn(2, gm * t)
+    x = gm * t
+    out.append(('xi_at_least_two_thirds', [gm > 0, t >= 0, E > 0, E * (1 + x + x * x / 2) <= 1, E2 >= 0, E2 <= E], guillot_xi(c, gm, t) >= 2.0 / 3.0))        # (the code's own constant 2.0/3.0)
+    # step 2: with the two xi values named X1, X2 >= 2/3 the fourth power is positive
+    X1, X2 = z3.Reals('X1 X2')
+    T4x = guillot_T4(c, s, 0, xi_values=(X1, X2))
+    out.append(('fourth_power_positive_given_the_xi_bounds', base + [tau > 0, X1 >= 2.0 / 3.0, X2 >= 2.0 / 3.0], T4x > 0))
+    # step 3: the closed form IS that expression at X_i = xi(gamma_i, tau) (substitution), and a positive number has a positive fourth root
+    T4 = guillot_T4(c, s, 0)
+    g1, g2 = s.kappa_v1 / s.kappa_ir, s.kappa_v2 / s.kappa_ir
+    out.append(('closed_form_is_that_expression', [X1 == guillot_xi(c, g1, tau), X2 == guillot_xi(c, g2, tau)], T4 == T4x))
+    out.append(('optical_depth_positive', base, tau > 0))
+    out.append(('temperature_positive', [T4 > 0], c.pow(T4, 0.25) > 0))
+    return out
+
+
+Lemma('C12', 'guillot_temperature_positive', _guillot_positive,
+      doc='the published closed form gives a positive temperature for every pressure > 0 when the opacities are positive, 0 <= alpha <= 1 and '
+          'the two temperatures are >= 0 and not both zero (assumed: exp(x) >= 1 + x + x^2/2 and 0 <= E2(x) <= exp(-x) for x >= 0)')
